@@ -274,6 +274,14 @@ def node_tree(nodes, i, memo=None):
     return t
 
 
+def coord_value(v):
+    """Scenario files spell exotic real-number coordinates as {"frac": [p, q]} (fractions.Fraction)."""
+    if isinstance(v, dict) and "frac" in v:
+        from fractions import Fraction
+        return Fraction(v["frac"][0], v["frac"][1])
+    return v
+
+
 def make_point(coords):
     """coords: list of [name, value] pairs, order preserved (it is the caller's spelling)."""
-    return lib.Point(**{name: value for name, value in coords})
+    return lib.Point(**{name: coord_value(value) for name, value in coords})
